@@ -223,12 +223,14 @@ def check_case(ctx, res, case, label='gen'):
             else:
                 if [prep['free'], prep['fixed'], prep['cols']] != [table['free'], table['fixed'], table['cols']]:
                     res.diverge('id table (IdM.prepare vs IdManager.prepare)', small, prep, table, where=where)
-            real_lines = [_strip(l) for l in G.alpha_rename(lines)]
-            model_lines = [_strip(l) for l in G.alpha_rename([_unjson(l) for l in emit.get('lines', [])])]
-            if real_lines != model_lines:
-                k = next((i for i, (a, b) in enumerate(zip(real_lines, model_lines)) if a != b), min(len(real_lines), len(model_lines)))
-                res.diverge(f'signature lines (Engine.emit vs get_signature), first difference at line {k}', small,
-                            model_lines[k] if k < len(model_lines) else None, real_lines[k] if k < len(real_lines) else None, where=where)
+            # structural comparison: the formula each signature denotes (children resolved by id from the last line),
+            # the number of distinct ids (sharing) and "every child is defined before its parent"; the emission order
+            # of sibling sub-formulas is not part of the contract (LogLogit lists availabilities in their own dict order)
+            real_c = _canon_sig([_strip(l) for l in lines])
+            model_c = _canon_sig([_strip(l) for l in (_unjson(l) for l in emit.get('lines', []))])
+            if real_c != model_c:
+                res.diverge('signature (Engine.emit vs get_signature): denoted formula / sharing / definition order', small,
+                            str(model_c)[:400], str(real_c)[:400], where=where)
             body = ans[2:-1]
             for i in range(len(rows)):
                 ev, rs = body[2 * i], body[2 * i + 1]
@@ -258,6 +260,23 @@ def check_case(ctx, res, case, label='gen'):
 def _unjson(l):
     return {'k': l['k'], 'id': l['id'], 'c': l['c'], 'name': l['name'], 'status': l['status'], 'uid': l['uid'], 'slot': l['slot'],
             'v': b2f(l['v']), 'keys': l['keys'], 'members': [b2f(m) for m in l['members']]}
+
+
+def _canon_sig(lines):
+    defs = {}
+    ordered_ok = True
+    for l in lines:
+        if any(c not in defs for c in l['c']):
+            ordered_ok = False
+        defs.setdefault(l['id'], l)
+
+    def tree(i, depth=0):
+        l = defs.get(i)
+        if l is None or depth > 60:
+            return ('?', i)
+        return (l['k'], l['name'], l['status'], l['uid'], l['slot'], l['v'], tuple(l['keys']), tuple(l['members']), tuple(tree(c, depth + 1) for c in l['c']))
+
+    return (tree(lines[-1]['id']) if lines else None, len(defs), ordered_ok)
 
 
 def _strip(l):
